@@ -16,7 +16,8 @@ atomic steps. Sum and buckets are uniform cells (`0..k-1` buckets, `k` the sum);
 non-empty local bucket plus the sum for a local-histogram flush. Exact (integer) cell arithmetic.
 The executable replay machine `Model/HistMachine.lean` — the machine every trace of the real
 implementation is checked against, event by event — is written over the state of this model, and
-`replay_refines` below proves that every item it accepts is a stutter or one step of the model: the
+`replay_refines` below proves that every item it accepts is a stutter, one step or (a collector that
+skipped a no-op `fetch_add(0)`) two steps of the model: the
 theorems hold of every state reached while replaying a real trace, and `collect_returns_cut`
 states C02 for the values the real `collect` calls returned.
 -/
@@ -108,10 +109,15 @@ theorem claim_order_fixed {k : Nat} {s s' : St} (h : Step k s s') : s.claimed <+
 /-! ### the replay machine (the tie to the real traces) -/
 
 /-- **replay_refines** — every item (call mark, atomic / lock event with the value it returned,
-    return mark) that the replay machine accepts is a stutter or exactly one step of the proof model
-    on the abstraction `HM.abs` -/
+    return mark) that the replay machine accepts is, on the abstraction `HM.abs`, a stutter, exactly
+    one step of the proof model, or exactly two steps. Two steps happen only at an event before which
+    a collector skipped the no-op `fetch_add(0)` of an `addHot` step on a bucket out of which it had
+    swapped 0 (`HM.skipTask`): the first step is that `addHot` of 0, it changes nothing but the task
+    list (`ts`; the shared state stays `s.core`), the second is the step of the event itself. -/
 theorem replay_refines {s s' : HM.St} {it : Conc.Item} (h : HM.item s it = .ok s') :
-    HM.abs s' = HM.abs s ∨ Hp.Step s.bounds.length (HM.abs s) (HM.abs s') :=
+    HM.abs s' = HM.abs s ∨ Hp.Step s.bounds.length (HM.abs s) (HM.abs s') ∨
+      ∃ ts, Hp.Step s.bounds.length (HM.abs s) (HM.withTasks s.core ts) ∧
+            Hp.Step s.bounds.length (HM.withTasks s.core ts) (HM.abs s') :=
   (HM.item_refines h).2
 
 /-- … so a trace that replays without divergence ends in a reachable state of the proof model -/
